@@ -57,4 +57,39 @@ theorem hash_one_value (c : Cfg) (cpu : Cpu) (k : V4) (h : Hasher) (hh : Hasher.
     (stream.foldl Hasher.append h).finalize64 = P.hash64 k stream.flatten :=
   finish_is_hash_of_written _ k h hh stream
 
+/-- `BuildHasher::hash_one(value)` as a machine operation: in EVERY configuration (whatever back end
+the ladder selects) and whatever else is alive, the output is the portable 64-bit hash of exactly the
+bytes the value's `Hash` impl feeds through `Hasher::write` — however they are split into calls — and
+the world is unchanged -/
+theorem hash_one_op (env : Env) (w : World) (k : V4) (ws : List (List (BitVec 8))) :
+    step env w (.hashOne k ws) = (w, .digest (.d64 (P.hash64 k ws.flatten))) := by
+  obtain ⟨h, hh⟩ : ∃ h, Hasher.new (selectNew env.cfg env.cpu) k = some h := by
+    cases selectNew env.cfg env.cpu <;> exact ⟨_, rfl⟩
+  have hv := hash_one_value env.cfg env.cpu k h hh ws
+  simp only [step, construct, resolve, Bool.false_eq_true, ↓reduceIte, hh, Option.map_some, mkHandle, hv]
+
+/-- the provided methods (`write_u8 … write_usize`, `write_str`, `write_vectored` loops, `write_fmt`)
+are sequences of `write` calls: their effect on any hasher (any back end, fresh or restored) is that of
+ONE append of the concatenated bytes, and they always succeed -/
+theorem provided_writes_op (env : Env) (w : World) (h : Nat) (x : Handle) (hx : w.get h = some x) (hi : x.h.Inv)
+    (ws : List (List (BitVec 8))) :
+    (step env w (.writes h ws)).2 = .ok ∧
+    ∃ y, (step env w (.writes h ws)).1.get h = some y ∧ y.auto = x.auto ∧ y.h.Inv ∧
+      y.h.abs = (x.h.append ws.flatten).abs := by
+  have a := Hasher.foldl_append_abs ws x.h hi
+  have b := Hasher.append_abs x.h ws.flatten hi
+  simp only [step, hx, World.get_put, ↓reduceIte, true_and]
+  exact ⟨_, rfl, rfl, a.2, by rw [a.1, b.1]⟩
+
+/-- hashing a value of a modelled shape through `hash_one`: a function of (key, value, target
+endianness / pointer width) only — never of the build configuration, CPU, or other hashers -/
+theorem hash_one_of_value (env : Env) (w : World) (t : StdT.Target) (k : V4) (v : StdT.Val) :
+    (step env w (.hashOne k (StdT.writes t v))).2 = .digest (.d64 (P.hash64 k (StdT.stream t v))) := by
+  rw [hash_one_op]; rfl
+
+/-- non-vacuity: a `u32` and a `&str` on a little-endian 64-bit target feed the bytes std documents -/
+example : StdT.stream ⟨false, 8⟩ (.pair (.int .w32 0xdeadbeef) (.str [0x68, 0x69])) = [0xef, 0xbe, 0xad, 0xde, 0x68, 0x69, 0xff] := by
+  decide
+example : StdT.stream ⟨true, 4⟩ (.bytes [1, 2]) = [0, 0, 0, 2, 1, 2] := by decide
+
 end HH.C12
